@@ -1,60 +1,90 @@
 (* C13 - heap form of the LALR value stack (model only, no proofs).
 
-   Python objects that matter for aliasing between interactive-parser forks are the
-   *child lists* of Tree nodes: ChildFilterLALR re-uses the child list of an inlined
-   `_rule` tree and extends it in place.  A heap is a list of such child lists; a
-   location is an index into it; allocation appends (so a location is never re-used). *)
-From Coq Require Import List Arith Bool.
+   The Python objects that matter for aliasing between interactive-parser forks are
+   - the *child lists* of Tree nodes: ChildFilterLALR re-uses the child list of an inlined
+     `_rule` tree and extends it in place;
+   - the *Meta objects* of Tree nodes: PropagatePositions writes res.meta in place, also when
+     res is an existing child tree (an inlined `?rule`);
+   - the *lexer threads*: a mutable position in the input that resume_parse()/iter_parse() advance.
+   A heap is a list of such cells; a location is an index into it; allocation appends (so a
+   location is never re-used). *)
+From Coq Require Import List Arith Bool ZArith.
+From LV Require Pos.MetaSpan.
 Import ListNotations.
 
 Definition loc := nat.
+Definition trip := MetaSpan.trip.       (* (pos, line, column) *)
+Definition meta := MetaSpan.meta.       (* start / end / container start / container end, each optional *)
+Definition empty_meta : meta := MetaSpan.empty_meta.
 
 (* A value on the value stack / inside a child list.
-   VTok ty id : a Token (immutable); ty = terminal number, id = identity of the token
-   VNone      : the None placeholder of maybe_placeholders
-   VTree d l  : a Tree whose data is rule-name number d and whose `children` attribute
-                is the list object at location l.  (With empty callbacks the bare list
-                `s` is pushed; it is represented as VTree 0 l.) *)
-Inductive value := VTok (ty id : nat) | VNone | VTree (d : nat) (l : loc).
+   VTok ty id   : a Token (immutable); ty = terminal number, id = identity of the token (its
+                  positions are a function of the identity, see IDriver.cbenv)
+   VNone        : the None placeholder of maybe_placeholders
+   VTree d l m  : a Tree whose data is rule-name number d, whose `children` attribute is the list
+                  object at location l and whose `_meta` is the Meta object at location m.
+                  (With empty callbacks the bare list `s` is pushed; it is represented as VTree 0 l m.) *)
+Inductive value := VTok (ty id : nat) | VNone | VTree (d : nat) (l m : loc).
 
-(* Immutable trees: what a value denotes once the heap is read off. *)
-Inductive ptree := PTok (ty id : nat) | PNone | PNode (d : nat) (ch : list ptree).
+(* Immutable trees: what a value denotes once the heap is read off (metas included). *)
+Inductive ptree := PTok (ty id : nat) | PNone | PNode (d : nat) (mt : meta) (ch : list ptree).
 
-Definition heap := list (list value).
+Inductive cell :=
+| CList (vs : list value)     (* a list object *)
+| CMeta (mt : meta)           (* a Meta object *)
+| CLex (pos : nat).           (* a LexerThread: how many tokens of the input it has yielded *)
 
-Definition hget (H : heap) (l : loc) : list value := nth l H [].
+Definition heap := list cell.
 
-Fixpoint hset (H : heap) (l : loc) (vs : list value) : heap :=
+Definition hget (H : heap) (l : loc) : list value :=
+  match nth_error H l with Some (CList vs) => vs | _ => [] end.
+Definition mget (H : heap) (m : loc) : meta :=
+  match nth_error H m with Some (CMeta mt) => mt | _ => empty_meta end.
+Definition lget (H : heap) (l : loc) : nat :=
+  match nth_error H l with Some (CLex n) => n | _ => 0 end.
+
+Fixpoint hset (H : heap) (l : loc) (c : cell) : heap :=
   match H, l with
   | [], _ => []
-  | _ :: r, 0 => vs :: r
-  | x :: r, S l' => x :: hset r l' vs
+  | _ :: r, 0 => c :: r
+  | x :: r, S l' => x :: hset r l' c
   end.
 
-(* list.__iadd__ / list.append on the list object at l *)
-Definition hext (H : heap) (l : loc) (vs : list value) : heap := hset H l (hget H l ++ vs).
+(* list.__iadd__ / list.append on the list object at l (only a list object can be extended) *)
+Definition hext (H : heap) (l : loc) (vs : list value) : heap :=
+  match nth_error H l with Some (CList old) => hset H l (CList (old ++ vs)) | _ => H end.
+(* attribute writes on the Meta object at m *)
+Definition mset (H : heap) (m : loc) (mt : meta) : heap :=
+  match nth_error H m with Some (CMeta _) => hset H m (CMeta mt) | _ => H end.
+(* the lexer thread at l advances *)
+Definition lset (H : heap) (l : loc) (n : nat) : heap :=
+  match nth_error H l with Some (CLex _) => hset H l (CLex n) | _ => H end.
 
-(* a new list object *)
-Definition halloc (H : heap) (vs : list value) : heap * loc := (H ++ [vs], length H).
+(* a new object *)
+Definition halloc (H : heap) (c : cell) : heap * loc := (H ++ [c], length H).
 
 (* read a value off the heap (fuel = nesting depth) *)
 Fixpoint read (k : nat) (H : heap) (v : value) : ptree :=
   match v with
   | VTok a b => PTok a b
   | VNone => PNone
-  | VTree d l =>
+  | VTree d l m =>
       match k with
-      | 0 => PNode d []
-      | S k' => PNode d (map (read k' H) (hget H l))
+      | 0 => PNode d (mget H m) []
+      | S k' => PNode d (mget H m) (map (read k' H) (hget H l))
       end
   end.
 
-(* copy.deepcopy of one value: a fresh copy of everything reachable (tokens are immutable
-   and stay; fuel = nesting depth).  This is the model's statement of what deepcopy does
-   on a sharing-free value; see Heap_proofs.dcopy_spec for the property the proofs use. *)
-Fixpoint dcopy (k : nat) (H : heap) (v : value) {struct k} : heap * value :=
+(* copy.deepcopy of one value: a fresh copy of everything reachable (tokens are immutable and
+   stay; fuel = nesting depth).  Tree.__deepcopy__ is
+       type(self)(self.data, deepcopy(self.children, memo), meta=deepcopy(self._meta, memo))
+   [copy_meta = false] is the code before the repair F25 (meta=self._meta: the Meta object is
+   shared between the copy and the original).
+   This is the model's statement of what deepcopy does on a sharing-free value; see
+   Heap_proofs.dcopy_spec_both for the property the proofs use. *)
+Fixpoint dcopy (copy_meta : bool) (k : nat) (H : heap) (v : value) {struct k} : heap * value :=
   match v with
-  | VTree d l =>
+  | VTree d l m =>
       match k with
       | 0 => (H, v)
       | S k' =>
@@ -62,26 +92,28 @@ Fixpoint dcopy (k : nat) (H : heap) (v : value) {struct k} : heap * value :=
             match vs with
             | [] => (H, [])
             | x :: xs =>
-                let (H1, x') := dcopy k' H x in
+                let (H1, x') := dcopy copy_meta k' H x in
                 let (H2, xs') := go H1 xs in (H2, x' :: xs')
             end in
           let (H1, vs') := go H (hget H l) in
-          (H1 ++ [vs'], VTree d (length H1))
+          if copy_meta
+          then (H1 ++ [CList vs'; CMeta (mget H1 m)], VTree d (length H1) (S (length H1)))
+          else (H1 ++ [CList vs'], VTree d (length H1) m)
       end
   | _ => (H, v)
   end.
 
-Fixpoint dcopys (k : nat) (H : heap) (vs : list value) : heap * list value :=
+Fixpoint dcopys (copy_meta : bool) (k : nat) (H : heap) (vs : list value) : heap * list value :=
   match vs with
   | [] => (H, [])
   | x :: xs =>
-      let (H1, x') := dcopy k H x in
-      let (H2, xs') := dcopys k H1 xs in (H2, x' :: xs')
+      let (H1, x') := dcopy copy_meta k H x in
+      let (H2, xs') := dcopys copy_meta k H1 xs in (H2, x' :: xs')
   end.
 
 (* deepcopy(value_stack): the nesting depth of anything in H is below S (length H) *)
-Definition deepcopy (H : heap) (vs : list value) : heap * list value :=
-  dcopys (S (length H)) H vs.
+Definition deepcopy (copy_meta : bool) (H : heap) (vs : list value) : heap * list value :=
+  dcopys copy_meta (S (length H)) H vs.
 
 Definition lastn {A} (n : nat) (l : list A) : list A := skipn (length l - n) l.
 Definition droplast {A} (n : nat) (l : list A) : list A := firstn (length l - n) l.
